@@ -11,20 +11,21 @@ import (
 )
 
 // Value is one of:
-//   *smt.Term            bool / integer scalars
-//   Float                float32/64 (concrete only)
-//   Complex              (unsupported beyond zero)
-//   Ptr                  pointer (Obj == nil: nil pointer)
-//   Slice                slice header (Arr == nil: nil slice)
-//   Str                  string
-//   *Struct              struct value (immutable once built; copied on store)
-//   *Array               array value
-//   Iface                interface value (T == nil: nil interface)
-//   *MapObj              map (nil pointer: nil map)
-//   *ChanObj             channel
-//   *Closure             function value (nil pointer: nil func)
-//   Tuple                multiple results
-//   *Iter                range iterator
+//
+//	*smt.Term            bool / integer scalars
+//	Float                float32/64 (concrete only)
+//	Complex              (unsupported beyond zero)
+//	Ptr                  pointer (Obj == nil: nil pointer)
+//	Slice                slice header (Arr == nil: nil slice)
+//	Str                  string
+//	*Struct              struct value (immutable once built; copied on store)
+//	*Array               array value
+//	Iface                interface value (T == nil: nil interface)
+//	*MapObj              map (nil pointer: nil map)
+//	*ChanObj             channel
+//	*Closure             function value (nil pointer: nil func)
+//	Tuple                multiple results
+//	*Iter                range iterator
 type Value interface{}
 
 type Float struct{ F float64 }
